@@ -1,7 +1,7 @@
 /-
 C07 — SingleFlight: the inductive invariant of the interleaving model and its preservation by every step.
 -/
-import GoZero.C07.Model
+import GoZero.C07.SF
 namespace GoZero.C07.SF
 
 def PC.holdsLock : PC → Bool
@@ -246,7 +246,7 @@ theorem tlret_step (h : Inv s) (hs : step s t x = some s') :
 theorem frame_now (hs : step s t x = some s') : s'.now = s.now + 1 := by
   step_cases hs <;> rfl
 
-theorem frame_call (h : Inv s) (hs : step s t x = some s') (c : CallId) (hc : c < s.next) :
+theorem frame_call (_h : Inv s) (hs : step s t x = some s') (c : CallId) (hc : c < s.next) :
     c < s'.next ∧ s'.ekey c = s.ekey c ∧ s'.leader c = s.leader c ∧ s'.linv c = s.linv c := by
   step_cases hs <;> simp [upd] <;> grind
 
